@@ -41,7 +41,7 @@ fn get_setter(prop: String) -> Result<Box<PropSetter>, String> {
       spdc.signal.set_phi(v * DEG);
     }),
     "signal.frequency_thz" => Box::new(|spdc: &mut SPDC, v: f64| {
-      spdc.signal.set_frequency(v * TERA * HZ * RAD);
+      spdc.signal.set_frequency(crate::TWO_PI * v * TERA * HZ * RAD);
     }),
     "signal.wavelength_nm" => Box::new(|spdc: &mut SPDC, v: f64| {
       spdc.signal.set_vacuum_wavelength(v * NANO * M);
@@ -63,7 +63,7 @@ fn get_setter(prop: String) -> Result<Box<PropSetter>, String> {
       spdc.idler.set_phi(v * DEG);
     }),
     "idler.frequency_thz" => Box::new(|spdc: &mut SPDC, v: f64| {
-      spdc.idler.set_frequency(v * TERA * HZ * RAD);
+      spdc.idler.set_frequency(crate::TWO_PI * v * TERA * HZ * RAD);
     }),
     "idler.wavelength_nm" => Box::new(|spdc: &mut SPDC, v: f64| {
       spdc.idler.set_vacuum_wavelength(v * NANO * M);
@@ -76,7 +76,7 @@ fn get_setter(prop: String) -> Result<Box<PropSetter>, String> {
     }),
     // pump
     "pump.frequency_thz" => Box::new(|spdc: &mut SPDC, v: f64| {
-      spdc.pump.set_frequency(v * TERA * HZ * RAD);
+      spdc.pump.set_frequency(crate::TWO_PI * v * TERA * HZ * RAD);
     }),
     "pump.wavelength_nm" => Box::new(|spdc: &mut SPDC, v: f64| {
       spdc.pump.set_vacuum_wavelength(v * NANO * M);
